@@ -356,7 +356,12 @@ def ddmin_case(mod, case, sig, budget):
         for path in list(_paths(cur)):
             if any(p in noshrink for p in path):
                 continue
-            lst = _get(cur, path)
+            try:
+                lst = _get(cur, path)
+            except (IndexError, KeyError, TypeError):
+                continue            # an earlier removal changed the structure under this path
+            if not isinstance(lst, list):
+                continue
             i = len(lst) - 1
             while i >= 0 and budget > 0:
                 cand = _with_removed(cur, path, i)
@@ -369,7 +374,10 @@ def ddmin_case(mod, case, sig, budget):
                 except Exception:
                     pass
                 i -= 1
-                lst = _get(cur, path)
+                try:
+                    lst = _get(cur, path)
+                except (IndexError, KeyError, TypeError):
+                    break
                 i = min(i, len(lst) - 1)
     return best
 
